@@ -150,10 +150,10 @@ func c10(c *wk.Ctx) {
 		idx++
 	}
 	// (C) clock: frozen for K calls / stepping backwards (H4)
-	for k := 0; k < c.Pick(8, 120); k++ {
+	for k := 0; k < c.Pick(12, 160); k++ {
 		if c.Mine(idx) {
 			r := c.Rand(idx)
-			mode := []string{"frozen", "backwards", "coarse"}[k%3]
+			mode := []string{"frozen", "backwards", "coarse", "backwards-far"}[k%4]
 			c.Begin(idx, "clock "+mode)
 			c10clock(c, idx, r, mode)
 		}
@@ -313,7 +313,7 @@ func c10reconnect(c *wk.Ctx, idx int, r *rand.Rand) {
 		conns := e.srv.Conns()
 		cn := conns[len(conns)-1]
 		before := atomic.LoadInt32(&reconnects)
-		atomic.AddInt64(&back, 4e9) // time synchronisation sets the clock back 4 s while the connection is down
+		atomic.AddInt64(&back, []int64{4e9, 90e9, 7200e9}[round%3]) // the clock is set back (4 s, 90 s, 2 h) while the connection is down
 		cn.Close()
 		ok := false
 		for w := 0; w < 1000; w++ {
@@ -333,7 +333,7 @@ func c10reconnect(c *wk.Ctx, idx int, r *rand.Rand) {
 		if mode == "native" || mode == "coarse" {
 			return wallClock()
 		}
-		return base - 60e9, base + atomic.LoadInt64(&reads)*1e6 + 60e9
+		return base - 3*3600e9, base + atomic.LoadInt64(&reads)*1e6 + 60e9
 	})
 	c.Count("c10.reconnect_histories."+mode, 1)
 	c.Distinct("reconnect", rounds, idx, mode)
@@ -446,6 +446,17 @@ func c10clock(c *wk.Ctx, idx int, r *rand.Rand, mode string) {
 			if k%5 == 0 {
 				v -= 3e9 // the wall clock was stepped back 3 s (NTP)
 			}
+		case "backwards-far":
+			// set back for good by 40 s, then an hour, then a day (a wrong clock corrected, a time zone mistake, a VM resumed)
+			v = base + k*1e6
+			switch {
+			case k > 30:
+				v -= 86400e9
+			case k > 20:
+				v -= 3600e9
+			case k > 10:
+				v -= 40e9
+			}
 		default: // coarse: 15.6 ms granularity
 			v = (time.Now().UnixNano() / 15600000) * 15600000
 		}
@@ -476,6 +487,9 @@ func c10clock(c *wk.Ctx, idx int, r *rand.Rand, mode string) {
 	checkOutgoing(c, idx, e, "clock-"+mode, func() (int64, int64) {
 		if mode == "coarse" {
 			return wallClock()
+		}
+		if mode == "backwards-far" {
+			return lo - 2*86400e9, hi + int64(n*8)*1e6 + 10e9
 		}
 		return lo - 10e9, hi + int64(n*8)*1e6 + 10e9
 	})
